@@ -29,7 +29,7 @@ CHECKS = {
          "Object states (declared/undeclared x rates x data x reload) crossed with 14 frame deviations x 3 targets and 18 column deviations; the expected verdict (must-accept / must-refuse(class) / don't-care) is computed from the pre-state's public accessors and the header documentation only; rates include 0.5 Hz, frames include ragged sub-frames; the 'loaded' alphabet repeats the editing calls on objects loaded from every single-deviation generated file.",
          "verdict is don't-care wherever the documented contract is silent", "§3 C07", "api"),
  "C08": ("model_checking", "explicit-state BFS on the real code over caller-register histories; snapshot differential",
-         "Caller-side frame registers are built, submitted (append / indexed), mutated, extended, copied and re-submitted, interleaved with in-place edits of stored frames and column adds; after every caller-side op the object must be unchanged, after every object-side op the registers and the other frames must be unchanged; the aliasing partition is part of the state key; frames are handed over as lvalues and as temporaries copied from a register.",
+         "Caller-side frame registers are built, submitted (append / indexed), mutated, extended, copied and re-submitted, interleaved with in-place edits of stored frames and column adds; after every caller-side op the object must be unchanged, after every object-side op the registers and the other frames must be unchanged; the aliasing partition is part of the state key; frames are handed over as lvalues and as temporaries copied from a register; also on objects loaded from generated files (alphabet loaded), on objects without shape guards (alphabet wild), with a composite take-edit-put-back op, and on the stand-alone container classes against a std::vector model (drv_containers); snapshots include the by-name view.",
          "2 registers, <= 4/5 stored frames", "§3 C08", "api"),
  "C09": ("model_checking", "explicit-state BFS on the real code over parameter/group edit sequences + exhaustive shape table",
          "Add / replace / lock / unlock over existing and new groups x names x value menu: created-iff-absent, replaced-in-place-iff-present, look-up equals the given parameter, every other group/parameter identical at the same index, frames untouched, lock toggles flip one flag; names differing by case only are distinct parameters; a well-formed parameter is never refused; Group and Parameters::group (append or merge) stand-alone against a model.",
@@ -44,7 +44,7 @@ CHECKS = {
          "In every reachable state the object is snapshotted, saved to a fresh path, saved again over an existing longer file, and snapshotted again (purity, repeatability, bytes determined by the object alone); the exploration is repeated in three processes whose fresh heap bytes differ (MALLOC_PERTURB_ unset/0x55/0xAA) and the per-state file digests are joined on the state key; a shallower exploration runs entirely under valgrind memcheck and counts errors around each save.",
          "stack-sourced garbage is visible only to the memcheck pass (depth 1 quick / 2 thorough)", "§3 C14", "api"),
  "C15": ("fault_enumeration", "exhaustive single-fault (thorough: pair) enumeration over a fake device interposed under libc: every capacity, every write call, every open/close fault",
-         "For 4 objects every fault plan is executed on the real save path: open fails (3 errnos), device capacity C for every C in [0,size), k-th write call fails (2 errnos) for every k, close fails, all/k-th write short; oracle: returned normally => the device holds exactly the fault-free bytes, otherwise std::ios_base::failure must propagate; short writes alone must not fail.",
+         "For 5 objects (the 5th ~2 MB, coarser steps) every fault plan is executed on the real save path, called directly, from inside a catch handler and during stack unwinding: open fails (3 errnos), device capacity C for every C in [0,size), k-th write call fails (2 errnos) for every k, k-th seek fails, close fails, all/k-th write short; every write-capable descriptor the save opens is followed (several opens, append mode); oracle: returned normally => the device holds exactly the fault-free bytes, otherwise std::ios_base::failure must propagate; short writes alone must not fail. Plans run in a fixed order under a deadline; plans not reached are counted (plans_not_run_deadline, exhaustive=false).",
          "faults injected at fopen/fopen64/write/writev/fclose by link-time interposition (verified to sit under libstdc++'s basic_filebuf)", "§3 C15", "fault"),
  "C16": ("fault_enumeration", "exhaustive damage enumeration (truncations, byte overwrites, structural-field sweeps, pairs) of small valid files loaded by the real code in forked children under cap + watchdog, plain and ASan builds",
          "7 base files; children forked from a pristine process and ('primed' runs) from a process that has already loaded 12 valid files; every truncation length; every byte of header+parameters+first data block x 5 boundary values; every structural byte x 256 values; pairs of structural bytes x boundary values; child must end through 'object returned' or 'std::exception': no signal, no sanitizer report, no timeout (re-run alone with 10x limit), no memory growth stopped only by the cap (re-checked under 8 GiB).",
